@@ -35,6 +35,7 @@ def run(ctx):
         vlib.report(ctx, key, 'pair %s: the two lints disagree on %s (%s); %d such certificates' % (key, e['obj'], e['what'], len(evs)), dict(obj=e['obj'], what=e['what'], key=key))
     # ---- the Validity rule family (the 398/397-day pair of the table lives there): a fidelity oracle, SPEC-DRIFT only
     vlib.tlc_mc(ctx, 'MC_Validity', 'MC_Validity', workers=1)
+    vlib.tlapm(ctx, 'Proofs_Intervals')   # unbounded: over 398 days implies over 397 days; exactness at the limits
     dv = vlib.drive(ctx, exe, 'validity')
     vrej, vlines = vlib.tlc_trace(ctx, 'Trace_Validity', os.path.join(dv, 'validity.ndjson'), shards=8)
     nfid = 0
